@@ -24,6 +24,8 @@ fn main() {
     t.only = arg(&args, "--only-sess");
     match suite.as_str() {
         "sm3" => suites::sm3::drive(&mut t, &tier, seed),
+        "zuc" => suites::zuc::drive_stream(&mut t, &tier, seed, plan),
+        "eea" => suites::zuc::drive_eea(&mut t, &tier, seed),
         "sm4blk" => suites::sm4::drive_block(&mut t, &tier, seed, plan),
         "sm4mode" => suites::sm4::drive_modes(&mut t, &tier, seed),
         _ => {
